@@ -607,7 +607,12 @@ where
         builder.get_result()
     }
 
-    fn build_inner<B: LRBuilder<'i, I, C, S, P, TK>, C, S>(&self, context: &mut C, builder: &mut B)
+    /// Returns the span of the built (sub)tree.
+    fn build_inner<B: LRBuilder<'i, I, C, S, P, TK>, C, S>(
+        &self,
+        context: &mut C,
+        builder: &mut B,
+    ) -> Option<SourceSpan>
     where
         C: Context<'i, I, S, TK> + Default,
         S: State,
@@ -615,18 +620,29 @@ where
     {
         match &*self.root {
             SPPFTree::Term { token, .. } => {
-                context.set_span(Context::<I, S, TK>::span(&*self.root));
-                builder.shift_action(context, token.clone())
+                let span = Context::<I, S, TK>::span(&*self.root);
+                context.set_span(span);
+                builder.shift_action(context, token.clone());
+                Some(span)
             }
             SPPFTree::NonTerm { prod, .. } => {
                 let children = self.children();
-                children.iter().for_each(|c| {
-                    c.build_inner(context, builder);
-                });
-                context.set_span(Context::<I, S, TK>::span(&*self.root));
-                builder.reduce_action(context, *prod, children.len())
+                let spans = children
+                    .iter()
+                    .filter_map(|c| c.build_inner(context, builder))
+                    .collect::<Vec<_>>();
+                // The span kept in a packed node is the span of its first
+                // registered solution. Use the spans of the children selected
+                // for this tree.
+                let span = match (spans.first(), spans.last()) {
+                    (Some(first), Some(last)) => first.merge(*last),
+                    _ => Context::<I, S, TK>::span(&*self.root),
+                };
+                context.set_span(span);
+                builder.reduce_action(context, *prod, children.len());
+                Some(span)
             }
-            SPPFTree::Empty => (),
+            SPPFTree::Empty => None,
         }
     }
 
